@@ -56,6 +56,7 @@ func TestWorker(t *testing.T) {
 			return
 		}
 		x := &props.Ctx{T: t, P: p, Cat: cat, Trace: cmd.Trace}
+		x.Beat = func() { send(wire.Msg{Beat: true}) }
 		switch cmd.Op {
 		case "quit":
 			return
